@@ -17,7 +17,7 @@ Known == {"Reset", "TPutBegin", "TPutEnd", "TPutAck", "TTake", "TCopied", "CopyF
           "CPauseEnd", "TPauseBegin", "TPauseEnd", "CPutBegin", "CRecv", "KRecv", "KSample", "IFStart", "IFPush",
           "IFPop", "TouchCalc", "FinDone", "ReqStart", "ReqExiting", "ReqClamp", "DefStart", "DefPush", "DefPop",
           "ScanIF", "ScanDef", "ScanTimedOut", "KSub", "KIdent", "KEval", "KRdyBegin", "KRdyEnd", "KRdyDone", "Send", "KCmd",
-          "HRecv", "HPubAck", "HStatsT", "HStatsC", "HStatsK", "HEnd"}
+          "HRecv", "HPubAck", "HStatsT", "HStatsC", "HStatsK", "HEnd", "TExit", "HStatsTopics"}
 
 TraceInit == Init /\ l = 1 /\ TLCSet(1, 1) /\ TLCSet(2, <<>>)
 
@@ -78,6 +78,8 @@ TNext ==
   \/ IsEvent("HRecv") /\ (IF E.k = -1 THEN UNCHANGED vars ELSE AHRecv(E.k, E.id, E.att, E.crc, E.len, E.ts))
   \/ IsEvent("HPubAck") /\ AHPubAck(ToSet(E.keys))
   \/ IsEvent("HStatsT") /\ AHStatsT(E.t, E.count, E.bytes, E.depth)
+  \/ IsEvent("TExit") /\ ATExit(E.t)
+  \/ IsEvent("HStatsTopics") /\ AHStatsTopics(ToSet(E.topics))
   \/ IsEvent("HStatsC") /\ AHStatsC(E.c, E.depth, E.inflight, E.deferred, E.count, E.requeue, E.timeout)
   \/ IsEvent("HStatsK") /\ (IF E.k = -1 THEN UNCHANGED vars ELSE AHStatsK(E.k, E.rdy, E.inflight, E.fin, E.req, E.msgs))
   \/ IsEvent("HEnd") /\ AHEnd
